@@ -334,3 +334,24 @@ class Rng:
         m, e = math.frexp(x)
         m = round(m * (1 << bits)) / (1 << bits)
         return math.ldexp(m, e)
+
+
+def _judge_one(args):
+    modname, c, im, mo = args
+    import importlib
+    mod = importlib.import_module(modname)
+    try:
+        return mod.judge(c, im, mo)
+    except Exception:  # a judge that crashes must not pass silently
+        import traceback
+        return dict(disagree=['judge crashed: %s' % traceback.format_exc()[-600:]], fail=[], nontrivial=False)
+
+
+def run_judges(modname, triples, nproc=None):
+    """the (exact-arithmetic) comparisons and oracles, in parallel"""
+    nproc = nproc or NPROC
+    if len(triples) < 64:
+        return [_judge_one((modname,) + t) for t in triples]
+    ctx = multiprocessing.get_context('fork')
+    with ctx.Pool(min(nproc, len(triples))) as pool:
+        return pool.map(_judge_one, [(modname,) + t for t in triples], chunksize=max(1, len(triples) // (nproc * 8)))
